@@ -619,11 +619,44 @@ theorem info_oneLine {α : Type} [DecidableEq α] (J : JsonLib α) (ann : α) (d
 
 /-! ## whole records -/
 
+/-- a quality offset under which no written quality byte is an end of line (what the FASTQ round trip needs) -/
+def ShiftOK (sh : UInt8) : Prop := ∀ q : UInt8, isEol (writeQ sh q) = false
+
 set_option maxRecDepth 100000 in
-theorem writeQ_noEol (sh : UInt8) (h : sh = 33 ∨ sh = 64) (q : UInt8) : isEol (writeQ sh q) = false := by
+theorem shiftOK_33_64 (sh : UInt8) (h : sh = 33 ∨ sh = 64) : ShiftOK sh := by
+  intro q
   rcases h with rfl | rfl
   · revert q; apply forall_uint8; decide
   · revert q; apply forall_uint8; decide
+
+theorem writeQ_noEol (sh : UInt8) (h : ShiftOK sh) (q : UInt8) : isEol (writeQ sh q) = false := h q
+
+/-- every offset from 14 to 172 is fine: the written byte `min q 93 + sh` (mod 256) is never 10 or 13 -/
+theorem shiftOK_range (sh : UInt8) (h1 : 14 ≤ sh) (h2 : sh ≤ 172) : ShiftOK sh := by
+  intro q
+  have hx : (min q 93).toNat ≤ 93 := by
+    have : min q 93 ≤ 93 := by
+      by_cases h : q ≤ 93
+      · rw [Std.LawfulOrderLeftLeaningMin.min_eq_left q 93 h]; exact h
+      · rw [Std.LawfulOrderLeftLeaningMin.min_eq_right q 93 h]; exact UInt8.le_refl _
+    exact UInt8.le_iff_toNat_le.mp this
+  have h1' : 14 ≤ sh.toNat := UInt8.le_iff_toNat_le.mp h1
+  have h2' : sh.toNat ≤ 172 := UInt8.le_iff_toNat_le.mp h2
+  simp only [writeQ, clamp_eq_min, isEol]
+  have hn : (min q 93 + sh).toNat = ((min q 93).toNat + sh.toNat) % 256 := UInt8.toNat_add _ _
+  have a : (min q 93 + sh) ≠ 13 := by
+    intro e; have := congrArg UInt8.toNat e; rw [hn] at this; simp at this; omega
+  have b : (min q 93 + sh) ≠ 10 := by
+    intro e; have := congrArg UInt8.toNat e; rw [hn] at this; simp at this; omega
+  simp [a, b]
+
+/-- the quality value `≤ 93` whose written byte is an end of line when the offset is outside 14..172 -/
+def badQ (sh : UInt8) : UInt8 := if sh ≤ 10 then 10 - sh else if sh ≤ 13 then 13 - sh else 10 - sh
+
+set_option maxRecDepth 100000 in
+/-- … and outside that range some quality value of the stated range 0..93 is written as an end of line -/
+theorem shift_bad : ∀ sh : UInt8, ¬ (14 ≤ sh ∧ sh ≤ 172) → badQ sh ≤ 93 ∧ isEol (writeQ sh (badQ sh)) = true := by
+  apply forall_uint8; decide
 
 set_option maxRecDepth 100000 in
 theorem writeQ_clamp (sh q : UInt8) : writeQ sh (min q 93) = writeQ sh q := by
@@ -647,7 +680,7 @@ theorem write_read_fasta_aux {α : Type} [DecidableEq α] (J : JsonLib α) (r : 
   simp [readRec, header_roundtrip_aux J _ _ hJ]
 
 theorem write_read_fastq_aux {α : Type} [DecidableEq α] (J : JsonLib α) (sh : UInt8)
-    (hsh : sh = 33 ∨ sh = 64) (r : Record α) (hJ : J.OKat (r.ann, r.defn)) (h : WF r)
+    (hsh : ShiftOK sh) (r : Record α) (hJ : J.OKat (r.ann, r.defn)) (h : WF r)
     (hq : (qualities r.seq r.qual).length = r.seq.length) :
     readFastq J sh (writeFastq J sh r)
       = some [{ r with qual := some ((qualities r.seq r.qual).map (fun q => min q 93)) }] := by
@@ -915,7 +948,7 @@ theorem write_read_fastaG_aux {α : Type} [DecidableEq α] (J : JsonLib α) (obi
 
 theorem write_read_fastqG_aux {α : Type} [DecidableEq α] (J : JsonLib α) (obi : Bytes → Option (Parsed α))
     (hobi : obi [] = some ⟨J.empty, none⟩) (sh : UInt8)
-    (hsh : sh = 33 ∨ sh = 64) (r : Record α) (hJ : J.OKat (r.ann, r.defn)) (h : WF r)
+    (hsh : ShiftOK sh) (r : Record α) (hJ : J.OKat (r.ann, r.defn)) (h : WF r)
     (hq : (qualities r.seq r.qual).length = r.seq.length) :
     readFastqG J obi sh (writeFastq J sh r)
       = some [{ r with qual := some ((qualities r.seq r.qual).map (fun q => min q 93)) }] := by
